@@ -23,6 +23,7 @@ RawSame(raw,g) == /\ raw.type = g.t
 
 CheckEnc(e) ==
   IF e.err # "" THEN "marshal-error"
+  ELSE IF ~e.stable THEN "result-overwritten-by-a-later-call"
   ELSE IF ~e.jsonvalid THEN "output-is-not-json"
   ELSE IF ~ShapeOK(e.doc) THEN "not-rfc7946-shape"
   ELSE LET want == Loss(e.g) r == Decode(e.doc) IN
